@@ -879,6 +879,8 @@ func (g *gen) applyCall(val ssa.Value, c *ssa.CallCommon, full, short string, or
 		}
 	} else if g.unit.Strict {
 		g.unmodelled("call to uncontracted "+full, pos)
+	} else {
+		g.uncontracted = append(g.uncontracted, full)
 	}
 	// havoc
 	mods, all := g.callModsCommon(c, ct, val)
@@ -1100,10 +1102,13 @@ func (g *gen) anchoredAsserts(full, short string, ord int, after bool, res []T, 
 	if g.ct == nil {
 		return
 	}
-	for i, a := range g.ct.Asserts {
+	k := 0
+	for _, a := range g.ct.Asserts {
 		if a.After != after || a.Ord != ord || !(a.Callee == short || a.Callee == full || g.w.shortKey(full) == a.Callee) {
 			continue
 		}
+		k++
+		i := k - 1
 		e := &env{g: g, vars: map[string]T{}, state: g.cur, old: g.initState()}
 		for k, v := range g.params {
 			e.vars[k] = v
